@@ -489,7 +489,7 @@ def judge_targets(ref, params, df, targets, valid):
 # --------------------------------------------------------------------------------------
 # convenience: one real simulate() call
 # --------------------------------------------------------------------------------------
-def simulate_once(fsim, params, init, vf=None, seed=0, targets=None, leaf="float", st_obj=None):
+def simulate_once(fsim, params, init, vf=None, seed=0, targets=None, leaf="float", st_obj=None, p_obj=None):
     import jax.numpy as jnp
 
     # call variants that must not matter are rotated: targets as list / tuple, seed as python
@@ -511,7 +511,7 @@ def simulate_once(fsim, params, init, vf=None, seed=0, targets=None, leaf="float
         st = {kk: np.asarray(v) for kk, v in init.items()}
     else:
         st = pipeline.jnp_states(init)
-    df = fsim(dsl.lcm_params(params, leaf=leaf), initial_states=st, seed=seed, **kw)
+    df = fsim(dsl.lcm_params(params, leaf=leaf) if p_obj is None else p_obj, initial_states=st, seed=seed, **kw)
     # the mapping handed in must come back unchanged (a user re-uses it for the next call)
     try:
         if sorted(st) != sorted(init) or any(not np.array_equal(np.asarray(st[k]), np.asarray(init[k])) for k in init):
